@@ -774,4 +774,101 @@ theorem hRun_sim (cfg : HCfg) (hB : 0 < cfg.bf.BanDuration) (es : List (Nat × H
     simp only [hRun, hSpecRun]
     rw [ha, ih e.1 _ _ hs' hn]
 
+/-- The limiter calls that a handshake time line makes (as the model executes it). -/
+def rlProj (cfg : HCfg) : List (Nat × HEv) → HState → List (Nat × REv)
+  | [], _ => []
+  | (t, .hs ip k) :: es, s =>
+    (if k.anon && isAllowed t ip s.ipm && !(isBanned t (s.bf ip).ban) then [(t, REv.allow ip)] else []) ++
+      rlProj cfg es (hStep cfg t (.hs ip k) s).1
+  | (t, .rlCleanup) :: es, s => (t, .cleanup) :: rlProj cfg es (hStep cfg t .rlCleanup s).1
+  | (t, .ipm e) :: es, s => rlProj cfg es (hStep cfg t (.ipm e) s).1
+  | (t, .bf e) :: es, s => rlProj cfg es (hStep cfg t (.bf e) s).1
+
+theorem rlProj_sorted (cfg : HCfg) (es : List (Nat × HEv)) :
+    ∀ t0 s, Sorted t0 es → Sorted t0 (rlProj cfg es s) := by
+  induction es with
+  | nil => intros; trivial
+  | cons e es ih =>
+    intro t0 s hs
+    obtain ⟨h0, hs'⟩ := hs
+    obtain ⟨t, ev⟩ := e
+    have hmono : ∀ s', Sorted t0 (rlProj cfg es s') := by
+      intro s'
+      have := ih t s' hs'
+      cases hr : rlProj cfg es s' with
+      | nil => trivial
+      | cons x xs => rw [hr] at this; exact ⟨Nat.le_trans h0 this.1, this.2⟩
+    cases ev with
+    | hs ip k =>
+      simp only [rlProj]
+      split
+      · exact ⟨h0, ih t _ hs'⟩
+      · exact hmono _
+    | rlCleanup => exact ⟨h0, ih t _ hs'⟩
+    | ipm e => exact hmono _
+    | bf e => exact hmono _
+
+theorem handshake_rl (cfg : HCfg) (t a : Nat) (k : HKind) (s : HState) :
+    (handshake cfg t a k s).1.rl =
+      (if k.anon && (isAllowed t a s.ipm && !(isBanned t (s.bf a).ban)) then (rlStep cfg.rl cfg.U t (.allow a) s.rl).1 else s.rl) ∧
+    (((handshake cfg t a k s).2 != .blk && (handshake cfg t a k s).2 != .ban) =
+      (isAllowed t a s.ipm && !(isBanned t (s.bf a).ban))) ∧
+    ((k.anon && (isAllowed t a s.ipm && !(isBanned t (s.bf a).ban))) = true →
+      ((handshake cfg t a k s).2 != .rate) = (allowB cfg.rl cfg.U t (s.rl a)).2) := by
+  unfold handshake
+  cases c1 : isAllowed t a s.ipm
+  · simp
+  · cases c2 : isBanned t (s.bf a).ban
+    · cases c3 : (allowB cfg.rl cfg.U t (s.rl a)).2 <;> cases k <;>
+        simp [HKind.anon, HKind.outcome]
+    · simp
+
+theorem rlProj_regs (cfg : HCfg) (ip : Nat) (es : List (Nat × HEv)) :
+    ∀ s, regsOf ip es (hRun cfg es s) =
+      allowsOf ip (rlProj cfg es s) (rlRun cfg.rl cfg.U (rlProj cfg es s) s.rl) := by
+  induction es with
+  | nil => intro s; rfl
+  | cons e es ih =>
+    intro s
+    obtain ⟨t, ev⟩ := e
+    cases ev with
+    | rlCleanup =>
+      simp only [hRun, rlProj, rlRun]
+      rw [show (hStep cfg t .rlCleanup s).2 = none from rfl,
+          show (rlStep cfg.rl cfg.U t .cleanup s.rl).2 = none from rfl]
+      simp only [regsOf, allowsOf]
+      exact ih _
+    | ipm e =>
+      simp only [hRun, rlProj]
+      rw [show (hStep cfg t (.ipm e) s).2 = none from rfl]
+      simp only [regsOf]
+      exact ih _
+    | bf e =>
+      simp only [hRun, rlProj]
+      rw [show (hStep cfg t (.bf e) s).2 = none from rfl]
+      simp only [regsOf]
+      exact ih _
+    | hs a k =>
+      simp only [hRun, rlProj]
+      rw [show (hStep cfg t (.hs a k) s).2 = some (handshake cfg t a k s).2 from rfl,
+          show (hStep cfg t (.hs a k) s).1 = (handshake cfg t a k s).1 from rfl]
+      simp only [regsOf]
+      rw [ih]
+      obtain ⟨h1, h2, h3⟩ := handshake_rl cfg t a k s
+      rw [h1, h2]
+      have hassoc : (k.anon && isAllowed t a s.ipm && !(isBanned t (s.bf a).ban)) =
+          (k.anon && (isAllowed t a s.ipm && !(isBanned t (s.bf a).ban))) := Bool.and_assoc _ _ _
+      rw [hassoc]
+      cases hc : (k.anon && (isAllowed t a s.ipm && !(isBanned t (s.bf a).ban)))
+      · have : (decide (a = ip) && k.anon && (isAllowed t a s.ipm && !(isBanned t (s.bf a).ban))) = false := by
+          rw [Bool.and_assoc, hc]; simp
+        simp only [this, Bool.false_eq_true, if_false, List.nil_append]
+      · have h3' := h3 hc
+        have : (decide (a = ip) && k.anon && (isAllowed t a s.ipm && !(isBanned t (s.bf a).ban))) = decide (a = ip) := by
+          rw [Bool.and_assoc, hc]; simp
+        simp only [this, if_true, List.cons_append, List.nil_append, rlRun]
+        rw [show (rlStep cfg.rl cfg.U t (.allow a) s.rl).2 = some (allowB cfg.rl cfg.U t (s.rl a)).2 from rfl]
+        simp only [allowsOf, h3']
+        by_cases hai : a = ip <;> simp [hai]
+
 end Tunnox.C18
